@@ -56,6 +56,9 @@ func (g *shapeGen) acts(max int) []*workflow.Action {
 	}
 	out := make([]*workflow.Action, n)
 	for i := range out {
+		if g.r.IntN(25) == 0 {
+			continue // a nil child: skipped by the walk
+		}
 		out[i] = &workflow.Action{ID: g.id(), Name: "a", Descr: "a"}
 	}
 	return out
@@ -78,10 +81,18 @@ func (g *shapeGen) plan() *workflow.Plan {
 		p.Blocks = []*workflow.Block{}
 	}
 	for i := 0; i < nb; i++ {
+		if g.r.IntN(30) == 0 {
+			p.Blocks = append(p.Blocks, nil)
+			continue
+		}
 		b := &workflow.Block{ID: g.id(), Name: "b", Descr: "b"}
 		b.BypassChecks, b.PreChecks, b.ContChecks = g.checks(), g.checks(), g.checks()
 		ns := g.r.IntN(g.maxSeqs + 1)
 		for j := 0; j < ns; j++ {
+			if g.r.IntN(30) == 0 {
+				b.Sequences = append(b.Sequences, nil)
+				continue
+			}
 			q := &workflow.Sequence{ID: g.id(), Name: "s", Descr: "s"}
 			q.Actions = g.acts(g.maxActs)
 			b.Sequences = append(b.Sequences, q)
